@@ -45,6 +45,12 @@ def resolve_id(spec, ctx):
         return -ctx["cur"] - 1
     if spec == "same":
         return ctx["cur"]
+    if spec == "bit31":
+        return ctx["cur"] - 2**31  # same low 31 bits
+    if spec == "bit32":
+        return ctx["cur"] + 2**32
+    if spec == "hi":
+        return ctx["cur"] + 2**40
     raise ValueError(spec)
 
 
